@@ -148,7 +148,11 @@ class CuboidCells(Cells):
 
         self._nearby_cells = {}
         for cell in self._cells:
-            self._nearby_cells[cell] = set(nearby_cell for nearby_cell in self._yield_nearby_cells(cell))
+            # The nearby cells are stored as the keys of an (insertion-ordered) dictionary instead of a set. The iteration
+            # order of a set of cells depends on their memory addresses and is not preserved by pickling, so that the
+            # order in which event handlers are asked for candidate events (and draw random numbers) would change from
+            # process to process and a dumped run would not resume to the original run.
+            self._nearby_cells[cell] = dict.fromkeys(self._yield_nearby_cells(cell))
 
     def _yield_nearby_cells(self, cell: Cell) -> Iterable[Cell]:
         """
@@ -233,7 +237,7 @@ class CuboidCells(Cells):
         Set[Cell]
             The set of nearby cells.
         """
-        return self._nearby_cells[cell]
+        return self._nearby_cells[cell].keys()
 
     def neighbor_cell(self, cell: Cell, direction: int, positive: bool) -> Optional[Cell]:
         """
